@@ -13,7 +13,7 @@ ROLES = [('zwj', lambda n: [n, 0x200D], 1), ('zwnj', lambda n: [n, 0x200C, 0x627
 
 def correspondence(ctx):
     corr = Corr()
-    impl = rle_check(ctx, corr, TABLES + ['ctxrule', 'zwnj_b2', 'zwnj_a2'], TABLES + ['ctxrule', 'zwnj_b2', 'zwnj_a2'])
+    impl = rle_check(ctx, corr, TABLES + ['ctxrule', 'zwnj_b2', 'zwnj_a2', 'kat_with', 'arab_with', 'extarab_with'], TABLES + ['ctxrule', 'zwnj_b2', 'zwnj_a2', 'kat_with', 'arab_with', 'extarab_with'])
     # neighbours: every table boundary (first/last of each run and the code points next to them)
     neigh = set()
     for fn in TABLES:
@@ -71,6 +71,17 @@ def correspondence(ctx):
             cases.append(f'rule|zwnj|{hexs(lab)}|{off}')
             if n in (0, 1, 29, 30, 31, 32, 64, 100, 1000):
                 cases.append(f'allows.ff|{hexs(lab)}')
+    # every rule with its context at the END (and at the start) of a label of EXACT total length L, for the interesting lengths
+    ctxs = {'zwnj': ([0x628, 0x200C, 0x628], 1), 'zwj': ([0x94D, 0x200D], 1), 'middledot': ([0x6C, 0xB7, 0x6C], 1), 'keraia': ([0x375, 0x3B1], 0),
+            'hebrew': ([0x5D0, 0x5F3], 1), 'katakana': ([0x30A2, 0x30FB], 1), 'arabic': ([0x660], 0), 'extarabic': ([0x6F0], 0)}
+    for L in (INTERESTING_LENGTHS if ctx.tier != 'quick' else [n for n in INTERESTING_LENGTHS if n % 8 in (0, 1, 7)]):
+        for name, (pat, off) in ctxs.items():
+            for fill in (0x61, 0xE9, 0x65E5):
+                n = L - len(pat)
+                if n < 0:
+                    continue
+                cases.append(f'rule|{name}|{hexs([fill] * n + pat)}|{n + off}')
+                cases.append(f'rule|{name}|{hexs(pat + [fill] * n)}|{off}')
     res = run_cases(cases, ctx.work)
 
     def nontrivial(case, impl):
